@@ -137,7 +137,7 @@ func dropEmptyKeys(o [][2]string) [][2]string {
 	return out
 }
 
-var byteFaults = []string{"bitflip", "bitflip", "rewrite", "mapping_slack", "mapping_slack", "cert_slack", "cert_slack", "after_sig", "sig_swap", "key_subst", "replay", "revocation_key_forgery"}
+var byteFaults = []string{"bitflip", "bitflip", "rewrite", "mapping_slack", "mapping_slack", "cert_slack", "cert_slack", "peer_slack", "after_sig", "sig_swap", "key_subst", "replay", "revocation_key_forgery"}
 var shapeFaults = []string{"offline_forgery", "offline_forgery", "offline_transplant", "store_confusion"}
 
 func (World) Generate(r *engine.RNG, tier string) *engine.Script {
@@ -378,6 +378,40 @@ func applyByteFault(m *message, f *engine.Fault, recorded []*message) bool {
 		}
 		m.frame = &nf
 		return true
+	case "peer_slack":
+		// RouterInfo only: the (unused, always zero) peer count is raised to n
+		// and n 32-byte hashes are inserted behind it. The specification has
+		// this field; a parser that skips the hashes must still have them
+		// covered by the signature.
+		if m.kind != "rinfo" {
+			return false
+		}
+		for _, fl := range fr.Fields {
+			if fl.Name != "peer_size" || fl.End > len(raw) {
+				continue
+			}
+			n := 1 + int(f.N[0])%3
+			raw[fl.Start] = byte(n)
+			junk := refmodel.Expand(uint64(f.N[1]), "peers", 32*n)
+			out := append([]byte(nil), raw[:fl.End]...)
+			out = append(out, junk...)
+			out = append(out, raw[fl.End:]...)
+			m.raw = out
+			nf := *fr
+			nf.Fields = append([]refmodel.Field(nil), fr.Fields...)
+			for i := range nf.Fields {
+				if nf.Fields[i].Start >= fl.End {
+					nf.Fields[i].Start += len(junk)
+					nf.Fields[i].End += len(junk)
+				}
+			}
+			if nf.SigStart >= fl.End {
+				nf.SigStart += len(junk)
+			}
+			m.frame = &nf
+			return true
+		}
+		return false
 	case "after_sig":
 		m.raw = append(raw, refmodel.Expand(uint64(f.N[0]), "after", 1+int(f.N[1])%16)...)
 		return true
